@@ -1,4 +1,5 @@
 import JsonVerif.Model.De
+import JsonVerif.Model.SerdeJsonNum
 import Driver.SerdeCmd
 /-!
 Line-protocol glue for the deserializer model (not verified):
@@ -77,6 +78,18 @@ def parseTable? (s : String) : Option (List (List Char × Option (List Char) × 
       | _, _, _ => none
     | _, _ => none) (some [])
 
+/-- `text=printed` pairs (`!` = none): the float leg of the serde_json number conversion -/
+def parseTable2? (s : String) : Option (List (List Char × Option (List Char))) :=
+  if s = "-" then some [] else
+  (s.splitOn ",").foldr (fun e acc =>
+    match acc, e.splitOn "=" with
+    | some l, [n, a] =>
+      let tx (x : String) : Option (Option (List Char)) := if x = "!" then some none else (parseCps? x).map some
+      match parseCps? n, tx a with
+      | some n, some a => some ((n, a) :: l)
+      | _, _ => none
+    | _, _ => none) (some [])
+
 def envOf (tab : List (List Char × Option (List Char) × Option (List Char))) : FEnv where
   f32 n := match tab.find? (fun e => e.1 == n) with | some e => e.2.1 | none => none
   f64 n := match tab.find? (fun e => e.1 == n) with | some e => e.2.2 | none => none
@@ -151,6 +164,13 @@ def deCmd (args : List String) : String :=
       match fromValueObject (envOf tab).f64 v with
       | .ok w => s!"ok {showValue w}"
       | .error e => s!"E {showDeErr e}"
+    | _, _ => "bad-op"
+  | ["sj", v, tab] =>
+    match parseValue? v, parseTable2? tab with
+    | some v, some tab =>
+      let ftbl (n : List Char) : Option (List Char) :=
+        match tab.find? (fun e => e.1 == n) with | some e => e.2 | none => none
+      s!"ok {showValue (sjThereAndBack ftbl v)}"
     | _, _ => "bad-op"
   | _ => "bad-op"
 
